@@ -47,6 +47,10 @@ CLAIMED = {
    technique="C08 enumeration over tagged test vectors: every placement of up to two tags (incl. two on one sample) on a 6-sample vector, crossed with all drip-feed schedules; absolute-index tag multiset oracle, plus 'tags of a delivered sample never change'",
    text="Tags are converted to absolute output indices the first time their sample is seen; after the flush the multiset must equal the specification (identity, shifted by delay, index/decimation, after-skip), no tag may appear at or beyond the window length, on pre-existing samples, or change on a sample that was already delivered.",
    note="Trusted: harness output port bookkeeping; tag specs in the subject registry.", ref="DESIGN.md 3-E3, 5-C12"),
+ "C11": dict(level="exploration", engine="dsp",
+   technique="exhaustive enumeration of declared finite grids and linear bases against f64 reference definitions with explicit rounding bounds; the engine is built three times so that the scalar, AVX and portable-SIMD variants of the FIR kernel are each judged",
+   text="FIR kernel and block: tap counts 1-40, 63-65, 127-129, 200 (every residue mod 8) x every unit-vector tap set x a unit impulse at every input position (complete for bilinear implementations), plus steps, ramps, sinusoids and all sequences up to length 5 over {-1,0,1}; decimations 1-8 keep their phase; FftFilter/FftFilterFloat equal the direct linear convolution with zero pre-history and the FIR output delayed by taps-1; IIR recurrence; Hilbert identity; low_pass symmetric with unit DC gain for all four windows over a rate/cutoff/width grid; FftStream equals an O(n^2) DFT. Exploration: the float input space is not enumerable.",
+   note="Trusted: f64 reference implementations and the stated rounding bounds. AVX and nightly portable-simd builds must be available (they are in this sandbox).", ref="DESIGN.md 3-E6, 5-C11"),
  "C13": dict(level="model_checking", engine="hdlc",
    technique="exhaustive small-domain enumeration against a reference framer and an independent validity checker: size limits x payload lengths 0..max+2 and stuffing-heavy contents x flag arrangements x every noise preamble up to 4 (6) bits x every split of the bit stream into two (and many three) pieces; every single-bit and (nearly) every double-bit corruption with bit fixing off and on",
    text="About 110 000 bit streams in the quick tier are fed to the real deframer in pieces. Recovery: every in-bounds frame comes out exactly once, in order, also right after an out-of-bounds frame, shared flags, and noise. Validity: every emitted packet must be encoded (payload + CRC-16/X.25, or within one bit of it when fixing is on) by some flag-delimited, abort-free region of the input bit stream - checked by a validator that knows nothing about the deframer's state machine.",
@@ -94,6 +98,8 @@ ENGINES = [
   "kind_free_text": "exhaustive create/drop sequences with mapping and descriptor accounting"},
 {"name": "formats", "path": "/verif/harness/seq/src/formats.rs", "serves_properties": ["C14"],
   "kind_free_text": "exhaustive enumeration of value domains, length grids, member orders and read segmentations for the byte formats"},
+{"name": "dsp", "path": "/verif/harness/seq/src/dsp.rs", "serves_properties": ["C11"],
+  "kind_free_text": "grid / basis enumeration of DSP kernels against f64 definitions, in three kernel builds"},
  {"name": "mt", "path": "/verif/harness/mt/src", "serves_properties": ["C03", "C04", "C05", "C07"],
   "kind_free_text": "stateless model checking: deviation-bounded DFS over schedules of the real code on the shuttle runtime, timeouts as scheduler choices"},
 ]
